@@ -472,7 +472,7 @@ theorem InvB.closed : Closed InvB where
     · exact h.of_same rfl rfl (fun _ => rfl)
     · exact h
   ctxEmpty := fun _ _ h => h.setTh_same _ _ rfl
-  dropCtx := fun s i h _ _ => by
+  dropCtx := fun s i h _ _ _ => by
     refine h.of_accs rfl rfl ?_
     unfold PA.dropCtx
     rw [accs_setTh]
